@@ -10,6 +10,16 @@ VOC = ["ins", "insf", "emp", "upd1", "upd0", "era", "eraf", "find", "findf"]
 GROW = ["ins:1,ins:2,ins:3|ins:4,ins:5,era:1|find:3,ins:6,era:4;size", "ins:1,ins:2,ins:3,ins:4;ins:5,era:2|ins:6,find:5|era:3,ins:7;size",
         "ins:1,ins:2;insf:3,upd1:4,era:1|upd0:2,eraf:3,ins:5|findf:2,emp:6,find:4;size"]
 DEEP = ["ins:1,ins:2;ins:3,era:1|ins:4,find:3;size", "ins:1;ins:2,ins:3|era:1,ins:1;size"]
+# StripedSet never has fewer than 16 buckets: programs that really resize it.  lf1 variants (load factor 1) start with 15-16 keys,
+# sb2 variants (bucket threshold 2, hash k mod 2) pile odd keys into one bucket.  Two threads insert the same key while a third
+# one triggers the resize (thread order matters for the DFS rotation, so both orders are used).
+INIT16 = ",".join("ins:%d" % k for k in range(10, 26))
+STRIPED_LF1 = [v for v in STRIPED if "_lf1_" in v]
+STRIPED_SB2 = [v for v in STRIPED if "_sb2_" in v]
+GROW_LF1 = [INIT16 + ";ins:1,ins:2,era:10|ins:3,era:11,ins:4|find:12,ins:5,era:3;size", INIT16 + ";ins:1,upd1:2|ins:1,era:12|ins:3,ins:4,find:1;size"]
+GROW_SB2 = ["ins:1,ins:3;ins:5,ins:7,era:1|ins:9,era:3,ins:11|find:5,ins:13,era:7;size", "ins:1;ins:5,ins:3|ins:5,era:1|ins:7,ins:9,ins:11;size"]
+DEEP_LF1 = [INIT16[:-7] + ";ins:1|ins:1|ins:2,ins:3;size", INIT16[:-7] + ";ins:2,ins:3|ins:1|ins:1;size"]
+DEEP_SB2 = ["ins:1;ins:5|ins:5|ins:3,ins:7,ins:9;size", "ins:1;ins:3,ins:7,ins:9|ins:5|ins:5;size"]
 
 
 def run(ctx):
@@ -19,6 +29,9 @@ def run(ctx):
     ps = GROW + [SC.gen_program(ctx.rng, VOC, keys=6).replace(";trav,size,check", ";size") for _ in range(n)]
     allv = CUCKOO + STRIPED
     jobs = make_jobs(ctx, "set_lock", allv, ps) + make_jobs(ctx, "set_lock", allv, DEEP, strat=deep)
+    deep2 = [("dfs", 5000 if q else 400000, 2)]
+    jobs += make_jobs(ctx, "set_lock", STRIPED_LF1, GROW_LF1) + make_jobs(ctx, "set_lock", STRIPED_SB2, GROW_SB2)
+    jobs += make_jobs(ctx, "set_lock", STRIPED_LF1, DEEP_LF1, strat=deep2) + make_jobs(ctx, "set_lock", STRIPED_SB2, DEEP_SB2, strat=deep2)
     vlib.run_jobs(ctx, jobs)
     vlib.validate_histories(ctx, jobs, "LinSet", SC.consts(replace=False, ordered=False))
     ctx.impl_runs.append({"driver": "set_lock", "variants": allv, "programs": ps, "strategies": strategies(ctx)})
